@@ -5,6 +5,7 @@ package c03
 import (
 	"fmt"
 	"sort"
+	"strings"
 	"testing"
 
 	cluster "github.com/envoyproxy/go-control-plane/envoy/config/cluster/v3"
@@ -30,7 +31,9 @@ import (
 
 type hdWorld struct {
 	svcs map[int]int // host index -> port variant (0 = one port, 1 = two ports)
-	drs  map[int]int // host index -> DestinationRule variant (1..3)
+	drs  map[int]int // rule index -> DestinationRule variant (1..5)
+	drh  map[int]int // rule index -> index of the host the rule names (default: its own index)
+	dre  map[int]int // rule index -> exportTo variant (0 = unset, 1 = ".", 2 = another namespace)
 }
 
 func hdService(i, variant int) *model.Service {
@@ -46,9 +49,35 @@ func hdService(i, variant int) *model.Service {
 	return s
 }
 
-func hdDR(i, variant int) config.Config {
-	dr := &networking.DestinationRule{Host: fmt.Sprintf("h%d.example.com", i)}
+func (w hdWorld) dr(i int) config.Config {
+	h := i
+	if x, ok := w.drh[i]; ok {
+		h = x
+	}
+	return hdDR(i, w.drs[i], h, w.dre[i])
+}
+
+// hostOf tells which host rule i names
+func (w hdWorld) hostOf(i int) int {
+	if x, ok := w.drh[i]; ok {
+		return x
+	}
+	return i
+}
+
+func hdDR(i, variant, hostIdx, exp int) config.Config {
+	dr := &networking.DestinationRule{Host: fmt.Sprintf("h%d.example.com", hostIdx)}
+	switch exp {
+	case 1:
+		dr.ExportTo = []string{"."}
+	case 2:
+		dr.ExportTo = []string{"elsewhere"}
+	}
 	switch variant {
+	case 4: // the subset of variant 1, renamed
+		dr.Subsets = []*networking.Subset{{Name: "v9", Labels: map[string]string{"version": "v1"}}}
+	case 5:
+		dr.Subsets = []*networking.Subset{{Name: "v2", Labels: map[string]string{"version": "v2"}}, {Name: "v9", Labels: map[string]string{"version": "v1"}}}
 	case 1:
 		dr.Subsets = []*networking.Subset{{Name: "v1", Labels: map[string]string{"version": "v1"}}}
 	case 2:
@@ -102,7 +131,7 @@ func (in *interner) resources(t *testing.T, rs model.Resources) []rsrc {
 }
 
 func genHDelta(t *testing.T, c *vlib.Collector, r *vlib.Rand, id int) int {
-	n := vlib.Scale(24, 240)
+	n := vlib.Scale(40, 300)
 	for k := 0; k < n; k++ {
 		id++
 		cs := r.Sub()
@@ -110,26 +139,34 @@ func genHDelta(t *testing.T, c *vlib.Collector, r *vlib.Rand, id int) int {
 			continue
 		}
 		witness := k == 0
-		prev := hdWorld{svcs: map[int]int{}, drs: map[int]int{}}
+		hostWitness := k == 1
+		prev := hdWorld{svcs: map[int]int{}, drs: map[int]int{}, drh: map[int]int{}, dre: map[int]int{}}
 		for i := 1; i <= 4; i++ {
 			if cs.Chance(65) {
 				prev.svcs[i] = cs.Intn(2)
 			}
 			if cs.Chance(45) {
-				prev.drs[i] = 1 + cs.Intn(3)
+				prev.drs[i] = 1 + cs.Intn(5)
+				if cs.Chance(20) {
+					prev.dre[i] = 1
+				}
 			}
+		}
+		if hostWitness {
+			// a rule with a subset is re-pointed from h1 to h2; both services stay
+			prev = hdWorld{svcs: map[int]int{1: 0, 2: 0}, drs: map[int]int{1: 1}, drh: map[int]int{}, dre: map[int]int{}}
 		}
 		if witness {
 			// regression of /repo fix 9e904ce: two ports, one subset, then the second port goes away
-			prev = hdWorld{svcs: map[int]int{4: 1}, drs: map[int]int{4: 1}}
+			prev = hdWorld{svcs: map[int]int{4: 1}, drs: map[int]int{4: 1}, drh: map[int]int{}, dre: map[int]int{}}
 		}
 		var svcs []*model.Service
 		var cfgs []config.Config
 		for i, v := range prev.svcs {
 			svcs = append(svcs, hdService(i, v))
 		}
-		for i, v := range prev.drs {
-			cfgs = append(cfgs, hdDR(i, v))
+		for i := range prev.drs {
+			cfgs = append(cfgs, prev.dr(i))
 		}
 		cg := core.NewConfigGenTest(t, core.TestOptions{Services: svcs, Configs: cfgs})
 		proxy := cg.SetupProxy(&model.Proxy{IPAddresses: []string{"127.0.0.1"}, ConfigNamespace: "foo"})
@@ -144,10 +181,16 @@ func genHDelta(t *testing.T, c *vlib.Collector, r *vlib.Rand, id int) int {
 		if witness {
 			changes, onlySvc, onlyDR = 1, true, false
 		}
+		if hostWitness {
+			changes, onlySvc, onlyDR = 1, false, true
+		}
 		for j := 0; j < changes; j++ {
 			i := 1 + cs.Intn(4)
 			if witness {
 				i = 4
+			}
+			if hostWitness {
+				i = 1
 			}
 			if (cs.Bool() || onlySvc) && !onlyDR {
 				key := model.ConfigKey{Kind: kind.ServiceEntry, Name: fmt.Sprintf("h%d.example.com", i), Namespace: "bar"}
@@ -169,23 +212,65 @@ func genHDelta(t *testing.T, c *vlib.Collector, r *vlib.Rand, id int) int {
 				}
 				updated.Insert(key)
 			} else {
+				if len(prev.drs) > 0 && cs.Chance(60) && !hostWitness {
+					// prefer changing a rule that exists
+					ks := []int{}
+					for x := range prev.drs {
+						ks = append(ks, x)
+					}
+					sort.Ints(ks)
+					i = vlib.Pick(cs, ks)
+				}
 				key := model.ConfigKey{Kind: kind.DestinationRule, Name: fmt.Sprintf("dr%d", i), Namespace: "foo"}
-				if v, ok := prev.drs[i]; ok && cs.Chance(45) {
+				if v, ok := prev.drs[i]; ok && cs.Chance(45) && !hostWitness {
 					if err := cg.Store().Delete(gvk.DestinationRule, key.Name, key.Namespace, nil); err != nil {
 						t.Fatal(err)
 					}
 					delete(prev.drs, i)
+					delete(prev.drh, i)
+					delete(prev.dre, i)
 					tags = append(tags, "dr-removed")
 				} else if ok {
-					nv := 1 + v%3
-					prev.drs[i] = nv
-					if _, err := cg.Store().Update(hdDR(i, nv)); err != nil {
+					// an update: another variant (subsets added / renamed / removed, policy), another host, or
+					// another exportTo
+					free := []int{}
+					for j := 1; j <= 4; j++ {
+						taken := false
+						for x := range prev.drs {
+							if prev.hostOf(x) == j {
+								taken = true
+							}
+						}
+						if !taken {
+							free = append(free, j)
+						}
+					}
+					switch x := cs.Intn(10); {
+					case (x < 4 || hostWitness) && len(free) > 0:
+						prev.drh[i] = vlib.Pick(cs, free)
+						if hostWitness {
+							prev.drh[i] = 2
+						}
+						tags = append(tags, "dr-host-changed")
+						if v == 1 || v == 2 || v == 4 || v == 5 {
+							tags = append(tags, "dr-host-changed-with-subsets")
+						}
+					case x < 6:
+						prev.dre[i] = (prev.dre[i] + 1 + cs.Intn(2)) % 3
+						tags = append(tags, "dr-exportto-changed")
+					default:
+						nv := 1 + (v+cs.Intn(4))%5
+						prev.drs[i] = nv
+						tags = append(tags, "dr-updated")
+					}
+					if _, err := cg.Store().Update(prev.dr(i)); err != nil {
 						t.Fatal(err)
 					}
-					tags = append(tags, "dr-updated")
 				} else {
-					prev.drs[i] = 1 + cs.Intn(3)
-					if _, err := cg.Store().Create(hdDR(i, prev.drs[i])); err != nil {
+					prev.drs[i] = 1 + cs.Intn(5)
+					delete(prev.drh, i)
+					delete(prev.dre, i)
+					if _, err := cg.Store().Create(prev.dr(i)); err != nil {
 						t.Fatal(err)
 					}
 					tags = append(tags, "dr-added")
@@ -212,6 +297,9 @@ func genHDelta(t *testing.T, c *vlib.Collector, r *vlib.Rand, id int) int {
 		if witness {
 			tags = append(tags, "regression-port-removal")
 		}
+		if hostWitness {
+			tags = append(tags, "witness-dr-host-change")
+		}
 		if used {
 			tags = append(tags, "usedDelta")
 			c.Hyp("H_delta: (BuildClusters before - removed) + updated = BuildClusters after, for BuildDeltaClusters answering delta-aware", 1)
@@ -225,7 +313,7 @@ func genHDelta(t *testing.T, c *vlib.Collector, r *vlib.Rand, id int) int {
 			names[i] = s
 		}
 		c.Add(vlib.Case{ID: id, Term: term, Tags: uniq(tags), Trivial: !used,
-			Sample: map[string]any{"services": fmt.Sprint(prev.svcs), "destinationRules": fmt.Sprint(prev.drs), "updated": fmt.Sprint(updated.UnsortedList()),
+			Sample: map[string]any{"services": fmt.Sprint(prev.svcs), "destinationRules": fmt.Sprintf("variant %v host %v exportTo %v", prev.drs, prev.drh, prev.dre), "change": strings.Join(tags, ","), "updated": fmt.Sprint(updated.UnsortedList()),
 				"removed": removed, "usedDelta": used, "names": names}})
 	}
 	return id
